@@ -3,7 +3,6 @@ package lhsim
 import (
 	"fmt"
 	"math"
-	"testing/synctest"
 	"time"
 
 	"github.com/orbs-network/lean-helix-go/services/electiontrigger"
@@ -150,6 +149,7 @@ func (r *timerRig) onTrigger(tr *interfaces.ElectionTrigger) {
 
 func RunTimerComp(w *World) {
 	r := &timerRig{w: w}
+	w.enableYields()
 	r.base = []time.Duration{time.Millisecond, 100 * time.Millisecond, time.Second, 4 * time.Second, time.Minute}[w.ch.Pick("base", 5)]
 	r.t = Electiontrigger.NewTimerBasedElectionTrigger(r.base, nil)
 	r.checkTimeoutFunction()
@@ -172,10 +172,15 @@ func RunTimerComp(w *World) {
 	}
 	heights := 1 + w.ch.Pick("heights", 3)
 	for w.step = 0; w.step < w.cfg.MaxSteps && w.viol == nil; w.step++ {
-		synctest.Wait()
+		simWait()
 		w.settleYields(keep)
 		w.syncClock()
-		switch op := w.ch.Pick("op", 10); {
+		switch op := w.ch.Pick("op", 11); {
+		case op == 10: // preempt the next goroutine of the timer at one of its synchronisation points
+			if w.ys.arm == nil {
+				w.action("arm-yield")
+				w.armYield(nil, "", 1+w.ch.Pick("yield-in", 3), "")
+			}
 		case op <= 2: // register
 			x := hv{uint64(1 + w.ch.Pick("h", heights)), uint64(w.ch.Pick("v", 6))}
 			if w.ch.Pick("v-class", 12) == 11 {
@@ -254,24 +259,32 @@ func RunTimerComp(w *World) {
 				w.action("release-held")
 				w.ev("release held timer goroutine")
 				w.releaseYield(w.ch.Pick("which-held", len(ys)))
+			} else if len(w.ys.loose) > 0 {
+				w.action("release-preempted")
+				g := w.ys.loose[w.ch.Pick("which-preempted", len(w.ys.loose))]
+				g.release <- GatePass
 			}
 		}
 	}
-	synctest.Wait()
+	simWait()
 	w.syncClock()
 	// an armed, un-superseded timer with a reader eventually delivers its trigger
+	w.ys.arm = nil
+	if w.releaseLooseYields() {
+		simWait()
+	}
 	if w.viol == nil && r.cur != nil && r.cur.received == 0 && r.cur.timeout < time.Duration(1)<<58 {
 		w.releaseYields()
 		r.startReader()
-		synctest.Wait()
+		simWait()
 		rest := r.cur.at + r.cur.timeout - w.now
 		if rest > 0 {
 			w.sleep(rest)
 		}
-		synctest.Wait()
+		simWait()
 		w.settleYields(nil)
 		w.releaseYields()
-		synctest.Wait()
+		simWait()
 		if r.cur.received != 1 {
 			w.violate("C19", "trigger-not-delivered", "(h%d,v%d) armed at %v with timeout %v, never superseded, reader present: no trigger by %v", r.cur.hv.h, r.cur.hv.v, r.cur.at, r.cur.timeout, time.Since(w.start))
 		} else {
@@ -283,9 +296,9 @@ func RunTimerComp(w *World) {
 	kill()
 	w.yieldAll = false
 	w.releaseYields()
-	synctest.Wait()
+	simWait()
 	r.stopReader()
-	synctest.Wait()
+	simWait()
 	w.probe("nontrivial")
 	_ = fmt.Sprint
 }
